@@ -202,6 +202,62 @@ def run(ctx):
                                          "case_a": chk[idx][1], "case_b": l, "a": chk[idx][0], "b": key, "sig": "check"})
                         chk.setdefault(idx, (key, l))
             dist["meta:entries=%d" % min(len(H), 9)] += 1
+        # ---------------------------------------------------------------- 2b. requests on re-presented entries change nothing
+        # run A extracts everything; run B does the same and also reads from / checks every entry the reader
+        # re-presents on its own (fake directory, deferred link) and every position after the end
+        alines, ameta = [], []
+        for a in range(40 if ctx.quick else 1200):
+            arc, ms = T.tree_archive(pool, rnd)
+            pol = rnd.choice(["eod", "eod", "eof", "plain"])
+            kind = rnd.choice(T.KINDS)
+            opsA = ["n", "x"] * (2 * len(ms) + 3)
+            alines.append(T.case(kind, pol, arc, opsA))
+            ameta.append((kind, pol, arc, opsA))
+        if mode != "chroot":
+            keep = [i for i, l in enumerate(alines) if T.plain_ok(l)]
+            alines, ameta = [alines[i] for i in keep], [ameta[i] for i in keep]
+        aout = common.run_lines_parallel([drv], alines)
+        blines, bmeta = [], []
+        for l, o, (kind, pol, arc, opsA) in zip(alines, aout, ameta):
+            if "|" not in o or "CHILD-FAILED" in o:
+                continue
+            parts = parts_of(o)
+            opsB, expect = [], []
+            for j in range(0, len(opsA), 2):
+                r = parts[j] if j < len(parts) else ""
+                special = r.startswith("n:NULL") or (r.startswith("n:H") and T.hfield(r, "fake") == "1")
+                opsB.append("n")
+                expect.append(strip_ev(r))
+                if special:
+                    extra = rnd.choice([["r5"], ["c"], ["r100000", "cm"], ["r1", "r64"]])
+                    opsB += extra
+                    expect += [None] * len(extra)
+                opsB.append("x")
+                expect.append(strip_ev(parts[j + 1]) if j + 1 < len(parts) else "")
+            if len(opsB) > len(opsA):
+                blines.append(T.case(kind, pol, arc, opsB))
+                bmeta.append((l, o, opsB, expect))
+        bout = common.run_lines_parallel([drv], blines)
+        for bl, bo, (al, ao, opsB, expect) in zip(blines, bout, bmeta):
+            dist["represented:runs"] += 1
+            if "CHILD-FAILED" in bo or "|" not in bo:
+                viol.append({"property": PID, "kind": "reader-abnormal-termination", "case": bl, "observed": bo[-600:], "sig": "crash"})
+                continue
+            pb = parts_of(bo)
+            bad = None
+            for op, e, r in zip(opsB, expect, pb):
+                if e is None:
+                    if not (r.startswith("r=0:") or strip_ev(r) in ("c=0", "cm=0")):
+                        bad = "request %s on a re-presented entry or after the end returned %s" % (op, r[:80])
+                        break
+                elif strip_ev(r) != e:
+                    bad = "op %s: %s instead of %s" % (op, strip_ev(r)[:300], e[:300])
+                    break
+            if bad is None and ao.split("|", 1)[1] != bo.split("|", 1)[1]:
+                bad = "the extracted trees differ"
+            if bad:
+                viol.append({"property": PID, "kind": "requests-on-represented-entries-change-later-results", "case_a": al, "case": bl,
+                             "what": bad, "sig": "represented"})
         # ---------------------------------------------------------------- 3. two readers, interleaved and on two threads
         two, ref = [], []
         n_two = 150 if ctx.quick else 3000
@@ -240,7 +296,7 @@ def run(ctx):
                 if o.strip() != exp.strip():
                     viol.append({"property": PID, "kind": "two-readers-%s-differ-from-separate-runs" % kind, "case": l,
                                  "expected": exp[:1500], "observed": o[:1500], "sig": "two-readers"})
-        cov = {"evaluations": len(lines) + len(mlines) + 2 * n_two + len(ref), "distinct_nontrivial": nontriv,
+        cov = {"evaluations": len(lines) + len(mlines) + len(alines) + len(blines) + 2 * n_two + len(ref), "distinct_nontrivial": nontriv,
                "rule": "1. correspondence: every op sequence over {n, r5, r100000, c, x} up to length %d that respects the protocol "
                        "(%d of them) x 12 small archives x 3 directory policies x stream kinds in rotation (%d cases) and random "
                        "protocol-respecting sequences over generated archives (nested directories, safe/dangerous links, MacBinary "
@@ -248,7 +304,9 @@ def run(ctx):
                        "archive 3 reference runs (skip everything; read everything; check everything) and several runs with a "
                        "random action per member (nothing, full read, partial reads, check, extract), kinds in rotation: same "
                        "header sequence, same full-read result, same check verdict per member; after the end every request "
-                       "reports end.  3. two readers: interleaved by a random schedule in one thread and concurrently on two "
+                       "reports end.  2b. extract-everything runs, repeated with reads/checks added on every entry the reader "
+                       "re-presents (fake directory, deferred link) and after the end: those requests return 0, every other result "
+                       "and the extracted tree are unchanged.  3. two readers: interleaved by a random schedule in one thread and concurrently on two "
                        "threads (ThreadSanitizer build; a data race report is a failure) = the two separate runs.  non-trivial "
                        "= archive with at least two entries in the metamorphic family" % (3 if ctx.quick else 4, len(seqs), n_ex),
                "distribution": dict(dist), "samples": [lines[0][:300], mlines[0][:300] if mlines else "", two[0][1][:300]]}
